@@ -13,8 +13,9 @@
 (*                          refs = a literal                               *)
 (*   AddBranch(schema, name) a second UNION ALL branch over one table with *)
 (*                          as many items as the first (positional)        *)
-(*   Finish(collist, known) explicit column list (insert_cols) and which   *)
-(*                          tables the metadata provider knows              *)
+(*   Finish(collist, known, tk) explicit column list (insert_cols), which   *)
+(*                          tables the metadata provider knows, whether it  *)
+(*                          knows the target (C13)                          *)
 (* References are by index; names are a separate layer (the alias pool     *)
 (* contains another table's bare name), constrained by ValidNaming.        *)
 (*                                                                         *)
@@ -34,17 +35,17 @@ Inners == { <<[c |-> "c", al |-> None]>>, <<[c |-> "c", al |-> None], [c |-> "d"
 \* what the metadata provider says about a table it knows
 MetaCols(t) == IF t = "s.a" THEN <<"c", "d">> ELSE IF t = "s.b" THEN <<"c", "e">> ELSE <<"c">>
 
-VARIABLES kind, rels, items, branch2, collist, known, phase
-vars == <<kind, rels, items, branch2, collist, known, phase>>
+VARIABLES kind, rels, items, branch2, collist, known, tk, phase
+vars == <<kind, rels, items, branch2, collist, known, tk, phase>>
 
 TblName(r) == (IF r.s = None THEN "<default>" ELSE r.s) \o "." \o r.n
 Exposed(r) == IF r.al # None THEN r.al ELSE r.n
 ToSet(s) == {s[i] : i \in DOMAIN s}
 ItemName(it) == IF it.al # None THEN it.al ELSE IF Len(it.refs) = 1 THEN it.refs[1].c ELSE "expr"
 
-Init == kind = None /\ rels = <<>> /\ items = <<>> /\ branch2 = <<>> /\ collist = <<>> /\ known = {} /\ phase = "start"
+Init == kind = None /\ rels = <<>> /\ items = <<>> /\ branch2 = <<>> /\ collist = <<>> /\ known = {} /\ tk = FALSE /\ phase = "start"
 Start == /\ phase = "start" /\ \E k \in Kinds : kind' = k
-         /\ phase' = "from" /\ UNCHANGED <<rels, items, branch2, collist, known>>
+         /\ phase' = "from" /\ UNCHANGED <<rels, items, branch2, collist, known, tk>>
 \* exposed names pairwise distinct; the same table is not joined twice (self joins: Stmt.tla's business)
 NameOK(r) == /\ \A i \in DOMAIN rels : Exposed(rels[i]) # Exposed(r)
              /\ (r.k = "tbl" => \A i \in DOMAIN rels : rels[i].k = "tbl" => TblName(rels[i]) # TblName(r))
@@ -54,13 +55,13 @@ AddTbl == /\ phase = "from" /\ Len(rels) < MaxRels
           /\ \E s \in Schemas, n \in Bare, al \in TAliases \cup {None} :
                LET r == [k |-> "tbl", s |-> s, n |-> n, al |-> al, inner |-> <<>>] IN
                NameOK(r) /\ rels' = Append(rels, r)
-          /\ UNCHANGED <<kind, items, branch2, collist, known, phase>>
+          /\ UNCHANGED <<kind, items, branch2, collist, known, tk, phase>>
 AddSub == /\ phase = "from" /\ Len(rels) < MaxRels
           /\ \E al \in SAliases, s \in Schemas, n \in Bare, inner \in Inners :
                LET r == [k |-> "sub", s |-> s, n |-> n, al |-> al, inner |-> inner] IN
                NameOK(r) /\ rels' = Append(rels, r)
-          /\ UNCHANGED <<kind, items, branch2, collist, known, phase>>
-ToItems == /\ phase = "from" /\ Len(rels) >= 1 /\ phase' = "items" /\ UNCHANGED <<kind, rels, items, branch2, collist, known>>
+          /\ UNCHANGED <<kind, items, branch2, collist, known, tk, phase>>
+ToItems == /\ phase = "from" /\ Len(rels) >= 1 /\ phase' = "items" /\ UNCHANGED <<kind, rels, items, branch2, collist, known, tk>>
 \* an item: a literal (no refs), one reference, or an expression over two references (which must carry an alias, since the
 \* display name of an un-aliased expression follows its text); a wildcard stands alone and takes no alias
 Refs == [r : 0..Len(rels), c : ColNames \cup {Star}]
@@ -73,20 +74,23 @@ ItemOK(it) == /\ (Len(it.refs) = 2 => it.al # None /\ it.refs[1] # it.refs[2])
 AddItem == /\ phase = "items" /\ Len(items) < MaxItems /\ branch2 = <<>>
            /\ \E al \in {None, "k", "m"}, rf \in RefSeqs :
                 LET it == [al |-> al, refs |-> rf] IN ItemOK(it) /\ items' = Append(items, it)
-           /\ UNCHANGED <<kind, rels, branch2, collist, known, phase>>
+           /\ UNCHANGED <<kind, rels, branch2, collist, known, tk, phase>>
 \* second branch of a set operation: one table, one single-column item per position
 AddBranch == /\ phase = "items" /\ WithUnion /\ Len(items) >= 1 /\ branch2 = <<>>
              /\ \A i \in DOMAIN items : Len(items[i].refs) <= 1 /\ (Len(items[i].refs) = 1 => items[i].refs[1].c # Star)
              /\ \E s \in Schemas, n \in Bare :
                   branch2' = <<[s |-> s, n |-> n, cols |-> [i \in DOMAIN items |-> IF i = 1 THEN "y" ELSE IF i = 2 THEN "z" ELSE "w"]]>>
-             /\ UNCHANGED <<kind, rels, items, collist, known, phase>>
+             /\ UNCHANGED <<kind, rels, items, collist, known, tk, phase>>
 Tables == {TblName(rels[i]) : i \in {j \in DOMAIN rels : rels[j].k = "tbl" /\ rels[j].s # None}}    \* metadata is about schema-qualified tables
 HasStar == \E i \in DOMAIN items : Len(items[i].refs) = 1 /\ items[i].refs[1].c = Star
 Finish == /\ phase = "items" /\ Len(items) >= 1
-          /\ \E cl \in {<<>>, [i \in DOMAIN items |-> IF i = 1 THEN "p" ELSE IF i = 2 THEN "q" ELSE "r"]}, kn \in SUBSET (IF WithMeta THEN Tables ELSE {}) :
+          /\ \E cl \in {<<>>, [i \in DOMAIN items |-> IF i = 1 THEN "p" ELSE IF i = 2 THEN "q" ELSE "r"]}, kn \in SUBSET (IF WithMeta THEN Tables ELSE {}),
+                t \in (IF WithMeta THEN BOOLEAN ELSE {FALSE}) :
                /\ (cl # <<>> <=> kind = "insert_cols")
                /\ (kind = "insert_cols" => ~HasStar)
-               /\ collist' = cl /\ known' = kn
+               \* the provider may know the target table (written schema-qualified then): as many columns as the statement has items
+               /\ (t => kind \in {"insert", "insert_cols"} /\ ~HasStar)
+               /\ collist' = cl /\ known' = kn /\ tk' = t
           /\ phase' = "done" /\ UNCHANGED <<kind, rels, items, branch2>>
 Next == Start \/ AddTbl \/ AddSub \/ ToItems \/ AddItem \/ AddBranch \/ Finish
 Spec == Init /\ [][Next]_vars
@@ -124,7 +128,10 @@ StarOf(i) == LET r == rels[i] IN
    IF r.k = "sub" THEN {<<Col(TblName(r), SubOut(r)[j].src), SubOut(r)[j].name>> : j \in DOMAIN r.inner}
    ELSE IF IsKnown(r) THEN {<<Col(TblName(r), MetaCols(TblName(r))[j]), MetaCols(TblName(r))[j]>> : j \in DOMAIN MetaCols(TblName(r))}
    ELSE {<<Col(TblName(r), Star), Star>>}
-TgtName(j) == IF collist # <<>> THEN collist[j] ELSE ItemName(items[j])
+\* target column: the explicit column list always wins; else the known columns of the target of an INSERT name the positions;
+\* else the select alias; else the column's own name
+TgtMeta == <<"t1", "t2", "t3">>
+TgtName(j) == IF collist # <<>> THEN collist[j] ELSE IF tk THEN TgtMeta[j] ELSE ItemName(items[j])
 FlowItem(j) == LET it == items[j] IN
    IF Len(it.refs) = 1 /\ it.refs[1].c = Star
    THEN UNION {StarOf(i) : i \in (IF it.refs[1].r > 0 THEN {it.refs[1].r} ELSE DOMAIN rels)}
@@ -177,6 +184,6 @@ MachineFlowItem(j) == LET it == items[j] IN
 MachineFlow == UNION {MachineFlowItem(j) : j \in DOMAIN items} \cup FlowBranch2
 MachineFlowExact == (phase = "done" /\ ValidProgram) => MachineFlow = Flow
 
-Program == [kind |-> kind, rels |-> rels, items |-> items, branch2 |-> branch2, collist |-> collist, known |-> known]
+Program == [kind |-> kind, rels |-> rels, items |-> items, branch2 |-> branch2, collist |-> collist, known |-> known, tk |-> tk]
 EmitCase == (Emit /\ phase = "done" /\ ValidProgram) => PrintT(<<"CASE", ToJson([prog |-> Program, flow |-> Flow])>>)
 =============================================================================
